@@ -141,7 +141,8 @@ def run_sideb(pid, specs, props_filter=None, label='sideB', determinism=False):
             if sp is None:
                 continue
             lines = [l for l in err.splitlines() if l.startswith(pk + '/')][:4]
-            props = ['C01'] + (['C14'] if sp.naming == 'adversarial' else [])
+            props = list(getattr(sp, 'compile_props', ['C01'])) + (['C14'] if sp.naming == 'adversarial' else [])
+            props = sorted(set(props))
             res['confirmed'].append(dict(cls='%s:generated package does not compile' % ','.join(props), props=props,
                                          msg='package with generated wire_gen.go does not compile (%s): %s' % (sp.label, ' | '.join(lines)),
                                          artifact_dir=os.path.join(mod, pk), model=None, harness=label))
